@@ -1,21 +1,896 @@
-//! Monitor for property C07 (see /verif/DESIGN.md §6).
+//! Monitor for property C07: conditionals deliver only the selected branch; `\expandafter` acts on
+//! one token (optimised and simple implementations indistinguishable); `\noexpand` suppresses
+//! exactly one expansion. (design: /verif/DESIGN.md §6 C07; notes: ../NOTES.md)
+//!
+//! Phases
+//!   cond-enum  exhaustive boundary table: every `\ifodd n`, `\ifnum a R b`, `\ifcase n` over
+//!              boundary operands in several spellings, one program per chunk
+//!   cond-tree  random conditional trees of depth 0..6 with unique markers, dead text full of
+//!              unbalanced braces / nested conditionals / aliases / look-alikes, evaluated directly
+//!              by the generator; afterwards a lone `\fi` must raise exactly one error
+//!   xa-enum    `\xa^k1\a\xa^k2\b\xa^k3\c\xa^k4\d` for all k1..k3 in 0..7, k4 in 0..1, three macro
+//!              sets, with and without `\let` aliases: simple VM = optimized VM = reference expander
+//!   xa-macro   random streams over macros/`\noexpand`/groups: differential + reference expander
+//!   xa-mixed   random streams with `\the`, conditionals too: differential only
+
+pub mod cond;
+pub mod xa;
+
+use cond::{Gen, Item, Kind, OddRule, Stats};
+use std::cmp::Ordering;
 use vcore::*;
+use vmodels::expand::{delivered_text, Delivered, ExpandError, Expander, Meaning, NoexpandRule};
+use vmodels::macrocall::{lex_line, to_source, Tok};
+use vstate::{Event, Outcome, VmOptions};
+use xa::{Flavor, MacroSet, StreamStats};
 
 pub struct M;
 pub static MONITOR: M = M;
+
+const FINDING_IFODD: &str = "C07-ifodd-negative-odd";
+const FINDING_NOEXPAND: &str = "C07-noexpand-marker-lost-under-expandafter";
+const FI_ERROR: &str = "unexpected `fi` command";
+
+// ------------------------------------------------------------------------------------------------
+// conditionals
+// ------------------------------------------------------------------------------------------------
+
+struct CondRun {
+    outcome: Outcome,
+    out: String,
+    events: Vec<Event>,
+    fi_outcome: Outcome,
+    fi_out: String,
+    fi_events: Vec<Event>,
+}
+
+fn run_cond_program(src: &str) -> Result<CondRun, PanicInfo> {
+    catch(|| {
+        let mut vm = vstate::new_vm(&VmOptions::default());
+        let outcome = vstate::run(&mut vm, "prog.tex", src);
+        let out = vstate::take_out(&mut vm);
+        let events = vstate::take_events(&mut vm);
+        // the branch stack must be empty now: a lone \fi is an error, exactly one
+        let fi_outcome = vstate::run(&mut vm, "fi.tex", "\\scrollmode\\fi Z%");
+        let fi_out = vstate::take_out(&mut vm);
+        let fi_events = vstate::take_events(&mut vm);
+        CondRun {
+            outcome,
+            out,
+            events,
+            fi_outcome,
+            fi_out,
+            fi_events,
+        }
+    })
+}
+
+fn record_stats(st: &Stats, obs: &mut Obs) {
+    const KINDS: [&str; 5] = ["iftrue", "iffalse", "ifnum", "ifodd", "ifcase"];
+    for (i, k) in KINDS.iter().enumerate() {
+        obs.add(&format!("cond:live:{k}"), st.live_conds[i]);
+    }
+    obs.add("cond:dead-conditionals", st.dead_conds);
+    obs.add(&format!("cond:max-live-depth={}", st.max_live_depth), 1);
+    if st.max_depth >= 5 {
+        obs.count("cond:programs-with-depth>=5");
+    }
+    obs.add("cond:aliases-live", st.aliases_live);
+    obs.add("cond:aliases-dead", st.aliases_dead);
+    obs.add("cond:redefinable-name-used-as-conditional", st.mutable_names_as_cond);
+    obs.add("cond:lookalikes-dead", st.lookalikes_dead);
+    obs.add("cond:lookalikes-live", st.lookalikes_live);
+    obs.add("cond:dead-unbalanced-braces", st.dead_unbalanced_braces);
+    const LOOPS: [&str; 4] = ["false_case", "if_case", "else", "or"];
+    for (i, l) in LOOPS.iter().enumerate() {
+        obs.add(&format!("cond:skipped-by:{l}"), st.skip_loop[i]);
+        obs.add(&format!("cond:skipped-by:{l}:with-nested-conditionals"), st.skip_loop_nested[i]);
+    }
+    obs.add("cond:ifodd-negative-odd-live", st.ifodd_negative_odd_live);
+    obs.add("cond:ifodd-negative-even-live", st.ifodd_negative_even_live);
+    obs.add("cond:ifnum-boundary-live", st.ifnum_boundary_live);
+    obs.add("cond:ifcase-out-of-range-live", st.ifcase_out_of_range_live);
+    obs.add("cond:ifcase-negative-live", st.ifcase_negative_live);
+    obs.add("cond:register-operands-live", st.register_operands_live);
+    obs.add("cond:redefinitions-between-trees", st.redefinitions);
+    obs.add("cond:markers-live", st.markers_live);
+    obs.add("cond:markers-dead", st.markers_dead);
+}
+
+/// Run a program made of `items` and decide.
+fn check_cond_program(items: &[Item], class: &str, obs: &mut Obs) {
+    let mut body = String::new();
+    cond::render(items, &mut body);
+    let src = format!("{}{}%", cond::preamble(), body);
+    let mut want = String::new();
+    if !cond::eval(items, OddRule::Tex, &mut want) {
+        obs.inconclusive("generator put dead text on TeX's path");
+        return;
+    }
+    let mut st = Stats::default();
+    cond::live_stats(items, OddRule::Tex, 0, &mut st);
+
+    let run = match run_cond_program(&src) {
+        Ok(r) => r,
+        Err(p) => {
+            obs.repo_panic(&p, json!({"source": src}));
+            return;
+        }
+    };
+    obs.count("cond:programs");
+    obs.count(&format!("cond:programs:{class}"));
+    record_stats(&st, obs);
+    obs.nontrivial(&src);
+    if obs.wants_sample() {
+        obs.sample(json!({"source": body, "expected_out": want, "observed_out": run.out,
+            "lone_fi": {"out": run.fi_out, "events": format!("{:?}", run.fi_events)}}));
+    }
+
+    let detail = |dev: Option<&str>| {
+        json!({
+            "source": src, "tex_out": want, "deviation_model_out": dev,
+            "observed": {"outcome": format!("{:?}", run.outcome), "out": run.out, "events": format!("{:?}", run.events)},
+            "lone_fi": {"outcome": format!("{:?}", run.fi_outcome), "out": run.fi_out, "events": format!("{:?}", run.fi_events)},
+        })
+    };
+    let fi_ok = run.fi_outcome.is_ok()
+        && run.fi_out == "Z"
+        && run.fi_events == vec![Event::Recovered(FI_ERROR.to_string())];
+    let clean = run.outcome.is_ok() && run.events.is_empty();
+    if clean && run.out == want {
+        if fi_ok {
+            obs.count("cond:lone-fi-raised-exactly-one-error");
+        } else {
+            obs.violation("C07:branch-stack-not-empty-after-program", detail(None));
+        }
+        return;
+    }
+    // known finding: \ifodd on a negative odd number
+    if st.ifodd_negative_odd_live > 0 {
+        let mut dev = String::new();
+        if cond::eval(items, OddRule::RustRemainder, &mut dev) && clean && run.out == dev && fi_ok {
+            obs.known(FINDING_IFODD, detail(Some(&dev)));
+            return;
+        }
+    }
+    let what = if !run.outcome.is_ok() {
+        "error-in-well-nested-conditionals"
+    } else if !run.events.is_empty() {
+        "recovered-error-in-well-nested-conditionals"
+    } else if run.out.len() > want.len() {
+        "tokens-of-unselected-branch-delivered"
+    } else {
+        "selected-branch-not-delivered-exactly"
+    };
+    obs.violation(format!("C07:{what}"), detail(None));
+}
+
+// --- enumerated boundary table -----------------------------------------------------------------
+
+const ODD_VALUES: [i32; 44] = [
+    0, 1, 2, 3, 4, 5, 6, 7, -1, -2, -3, -4, -5, -6, -7, 255, -255, 256, -256, 32767, -32767, 32768,
+    -32768, 65535, -65535, 65536, -65536, 1073741823, -1073741823, 1073741824, -1073741824,
+    2147483645, -2147483645, 2147483646, -2147483646, 2147483647, -2147483647, 99, -99, 100, -100,
+    12345, -12345, -54321,
+];
+const NUM_VALUES: [i32; 13] = [
+    0,
+    1,
+    -1,
+    2,
+    -2,
+    3,
+    -3,
+    1073741824,
+    -1073741824,
+    2147483646,
+    -2147483646,
+    2147483647,
+    -2147483647,
+];
+const CASE_VALUES: [i32; 11] = [-2147483647, -2, -1, 0, 1, 2, 3, 4, 5, 6, 2147483647];
+
+fn literal(v: i32, form: u64) -> String {
+    let sign = if v < 0 { "-" } else { "" };
+    let mag = v.unsigned_abs();
+    match form {
+        0 => format!("{sign}{mag}\\relax "),
+        1 => format!("{sign}\"{mag:X}\\relax "),
+        2 => format!("{sign}'{mag:o} "),
+        _ => {
+            // through a register: \count20 is loaded just before the conditional
+            format!("{sign}\\count20 ")
+        }
+    }
+}
+
+fn load_register(v: i32, form: u64, items: &mut Vec<Item>) {
+    if form == 3 {
+        items.push(Item::Silent(format!("\\count20={}\\relax ", v.unsigned_abs())));
+    }
+}
+
+const ENUM_ODD: u64 = 44 * 4 * 2;
+const ENUM_NUM: u64 = 13 * 13 * 3 * 2;
+const ENUM_CASE: u64 = 11 * 5 * 2;
+const ENUM_TOTAL: u64 = ENUM_ODD + ENUM_NUM + ENUM_CASE;
+const ENUM_CHUNK: u64 = 16;
+
+fn enum_cond_item(j: u64, items: &mut Vec<Item>) {
+    let mark = |s: &str| vec![Item::Mark(format!("{s}{j};"))];
+    if j < ENUM_ODD {
+        let v = ODD_VALUES[(j % 44) as usize];
+        let form = (j / 44) % 4;
+        let alias = j / (44 * 4) == 1;
+        load_register(v, form, items);
+        let kw = if alias { "\\Aio " } else { "\\ifodd " };
+        items.push(cond::plain(
+            Kind::Odd(v),
+            format!("{kw}{}", literal(v, form)),
+            vec![mark("t")],
+            Some(mark("e")),
+        ));
+        return;
+    }
+    let j2 = j - ENUM_ODD;
+    if j2 < ENUM_NUM {
+        let a = NUM_VALUES[(j2 % 13) as usize];
+        let b = NUM_VALUES[((j2 / 13) % 13) as usize];
+        let o = [Ordering::Less, Ordering::Equal, Ordering::Greater][((j2 / 169) % 3) as usize];
+        let form = j2 / (169 * 3); // 0: decimal literals, 1: left operand through a register
+        let rel = match o {
+            Ordering::Less => '<',
+            Ordering::Equal => '=',
+            Ordering::Greater => '>',
+        };
+        let left = if form == 1 {
+            load_register(a, 3, items);
+            literal(a, 3)
+        } else {
+            format!("{a}")
+        };
+        items.push(cond::plain(
+            Kind::Num(a, o, b),
+            format!("\\ifnum {left}{rel}{b}\\relax "),
+            vec![mark("t")],
+            Some(mark("e")),
+        ));
+        return;
+    }
+    let j3 = j2 - ENUM_NUM;
+    let n = CASE_VALUES[(j3 % 11) as usize];
+    let k = 1 + ((j3 / 11) % 5) as usize;
+    let with_else = j3 / 55 == 1;
+    let branches: Vec<Vec<Item>> = (0..k).map(|i| vec![Item::Mark(format!("c{j}.{i};"))]).collect();
+    items.push(cond::plain(
+        Kind::Case(n),
+        format!("\\ifcase {n}\\relax "),
+        branches,
+        if with_else { Some(mark("e")) } else { None },
+    ));
+}
+
+// ------------------------------------------------------------------------------------------------
+// \expandafter / \noexpand
+// ------------------------------------------------------------------------------------------------
+
+#[derive(Debug, Clone, PartialEq, Eq)]
+struct XaRun {
+    error: Option<String>,
+    out: String,
+    events: Vec<Event>,
+}
+
+/// Run the same streams in a VM with the given `\expandafter`; stops after the first error.
+fn run_streams(simple: bool, preamble: &str, streams: &[String]) -> Result<Vec<XaRun>, PanicInfo> {
+    catch(|| {
+        let opts = VmOptions {
+            simple_expandafter: simple,
+            record_macros: true,
+            ..Default::default()
+        };
+        let mut vm = vstate::new_vm(&opts);
+        let mut runs = vec![];
+        let o = vstate::run(&mut vm, "preamble.tex", preamble);
+        let out = vstate::take_out(&mut vm);
+        let events = vstate::take_events(&mut vm);
+        let failed = !o.is_ok();
+        runs.push(XaRun {
+            error: o.err_title().map(|s| s.to_string()),
+            out,
+            events,
+        });
+        if failed {
+            return runs;
+        }
+        for s in streams {
+            let o = vstate::run(&mut vm, "stream.tex", s);
+            let out = vstate::take_out(&mut vm);
+            let events = vstate::take_events(&mut vm);
+            let failed = !o.is_ok();
+            runs.push(XaRun {
+                error: o.err_title().map(|s| s.to_string()),
+                out,
+                events,
+            });
+            if failed {
+                break;
+            }
+        }
+        runs
+    })
+}
+
+struct Reference {
+    out: String,
+    events: Vec<Event>,
+    marker_mattered: u64,
+    max_xa_depth: u32,
+    expandafters: u64,
+    noexpands: u64,
+}
+
+fn reference(
+    meanings: &std::collections::HashMap<String, Meaning>,
+    stream: &[Tok],
+    rule: NoexpandRule,
+) -> Result<Reference, ExpandError> {
+    let mut e = Expander::new(meanings.clone(), rule);
+    e.push_input(stream);
+    e.run()?;
+    for d in &e.delivered {
+        if let Delivered::Tok(Tok::Cs(n)) = d {
+            return Err(ExpandError::OutOfDomain(format!("undefined \\{n} reaches the main loop")));
+        }
+    }
+    let out = delivered_text(&e.delivered)
+        .ok_or_else(|| ExpandError::OutOfDomain("unmatched } reaches the main loop".into()))?;
+    Ok(Reference {
+        out,
+        events: e
+            .events
+            .iter()
+            .map(|m| Event::Macro {
+                name: m.name.clone(),
+                args: m.args.clone(),
+                expansion: m.expansion.clone(),
+            })
+            .collect(),
+        marker_mattered: e.marker_mattered,
+        max_xa_depth: e.max_xa_depth,
+        expandafters: e.expandafters,
+        noexpands: e.noexpands,
+    })
+}
+
+/// One case of the expandafter phases: a macro set, several streams, two VMs (+ reference).
+fn check_streams(set: &MacroSet, extra_preamble: &str, streams: &[Vec<Tok>], with_reference: bool, class: &str, obs: &mut Obs) {
+    let preamble = match set.preamble() {
+        Ok(p) => format!("{p}{extra_preamble}"),
+        Err(e) => {
+            obs.inconclusive(e);
+            return;
+        }
+    };
+    let mut srcs = vec![];
+    for s in streams {
+        match to_source(s) {
+            Some(x) if lex_line(&x) == *s => srcs.push(format!("{x}%")),
+            _ => {
+                obs.inconclusive("stream cannot be rendered");
+                return;
+            }
+        }
+    }
+    let simple = run_streams(true, &preamble, &srcs);
+    let optimized = run_streams(false, &preamble, &srcs);
+    let (simple, optimized) = match (simple, optimized) {
+        (Ok(a), Ok(b)) => (a, b),
+        (Err(a), Err(b)) => {
+            if a.signature() == b.signature() {
+                // e.g. \the applied to a non-variable (todo!() in the.rs): a totality matter
+                // (property C09), identical in both implementations
+                obs.skip("both-implementations-panicked-identically");
+            } else {
+                obs.repo_panic(&a, json!({"preamble": preamble, "streams": srcs, "other_panic": b.signature()}));
+            }
+            return;
+        }
+        (Err(p), Ok(_)) | (Ok(_), Err(p)) => {
+            let mut d = json!({"preamble": preamble, "streams": srcs});
+            d["note"] = json!("only one of the two \\expandafter implementations panicked");
+            obs.repo_panic(&p, d);
+            obs.violation("C07:expandafter-implementations-differ:panic", json!({"preamble": preamble, "streams": srcs, "panic": p.signature()}));
+            return;
+        }
+    };
+    obs.count(&format!("xa:cases:{class}"));
+    if simple[0].error.is_some() || !simple[0].out.is_empty() {
+        obs.violation(
+            "C07:preamble-not-silent",
+            json!({"preamble": preamble, "run": format!("{:?}", simple[0])}),
+        );
+        return;
+    }
+    // ---- differential: simple vs optimized ------------------------------------------------
+    if simple != optimized {
+        let i = simple
+            .iter()
+            .zip(optimized.iter())
+            .position(|(a, b)| a != b)
+            .unwrap_or(simple.len().min(optimized.len()));
+        let what = match (simple.get(i), optimized.get(i)) {
+            (Some(a), Some(b)) if a.error != b.error => "error",
+            (Some(a), Some(b)) if a.out != b.out => "output",
+            (Some(_), Some(_)) => "macro-expansion-events",
+            _ => "length",
+        };
+        obs.violation(
+            format!("C07:expandafter-implementations-differ:{what}"),
+            json!({"preamble": preamble, "stream": srcs.get(i.saturating_sub(1)),
+                   "simple": format!("{:?}", simple.get(i)), "optimized": format!("{:?}", optimized.get(i))}),
+        );
+        return;
+    }
+    // ---- per stream evidence + reference ----------------------------------------------------
+    let meanings = if with_reference {
+        match set.meanings() {
+            Ok(m) => Some(m),
+            Err(e) => {
+                obs.inconclusive(e);
+                return;
+            }
+        }
+    } else {
+        None
+    };
+    for (i, run) in optimized.iter().enumerate().skip(1) {
+        let stream = &streams[i - 1];
+        obs.count("xa:streams-compared");
+        obs.count(&format!("xa:streams-compared:{class}"));
+        obs.add("xa:macro-events-compared", run.events.len() as u64);
+        if run.error.is_some() {
+            obs.count("xa:streams-ending-in-identical-error");
+        }
+        obs.nontrivial(&(&preamble, &srcs[i - 1]));
+        if obs.wants_sample() {
+            obs.sample(json!({"preamble": preamble, "stream": srcs[i - 1], "out": run.out,
+                "error": run.error, "events": format!("{:?}", run.events)}));
+        }
+        let Some(meanings) = &meanings else { continue };
+        let tex = match reference(meanings, stream, NoexpandRule::Tex) {
+            Ok(r) => r,
+            Err(ExpandError::Budget) => {
+                obs.inconclusive("reference expander ran out of budget");
+                continue;
+            }
+            Err(ExpandError::OutOfDomain(_)) => {
+                obs.skip("reference-expander:out-of-domain(runaway/unbalanced/eof)");
+                continue;
+            }
+        };
+        obs.count("xa:streams-compared-with-reference");
+        obs.add("xa:reference:expandafter-executed", tex.expandafters);
+        obs.add("xa:reference:noexpand-executed", tex.noexpands);
+        obs.add(&format!("xa:reference:max-expandafter-nesting={}", tex.max_xa_depth.min(8)), 1);
+        if run.out.contains('\\') {
+            obs.count("xa:suppressed-token-reached-main-loop");
+        }
+        if run.error.is_none() && run.out == tex.out && run.events == tex.events {
+            continue;
+        }
+        let detail = |dev: Option<&Reference>| {
+            json!({"preamble": preamble, "stream": srcs[i - 1],
+                "observed(both implementations)": {"out": run.out, "error": run.error, "events": format!("{:?}", run.events)},
+                "tex": {"out": tex.out, "events": format!("{:?}", tex.events)},
+                "deviation_model": dev.map(|d| json!({"out": d.out, "events": format!("{:?}", d.events)}))})
+        };
+        if tex.marker_mattered > 0 {
+            if let Ok(dev) = reference(meanings, stream, NoexpandRule::MarkerLostUnderExpandafter) {
+                if run.error.is_none() && run.out == dev.out && run.events == dev.events {
+                    obs.known(FINDING_NOEXPAND, detail(Some(&dev)));
+                    continue;
+                }
+            }
+        }
+        let what = if run.error.is_some() {
+            "error"
+        } else if run.events != tex.events {
+            "expansion-order-or-arguments"
+        } else {
+            "output"
+        };
+        obs.violation(format!("C07:differs-from-reference-expander:{what}"), detail(None));
+    }
+}
+
+fn stream_stats(st: &StreamStats, obs: &mut Obs) {
+    obs.add("xa:expandafter-tokens-generated", st.xa_tokens);
+    obs.add("xa:expandafter-alias-tokens-generated", st.xa_aliases);
+    for (k, n) in st.chains_by_len.iter().enumerate() {
+        if *n > 0 {
+            obs.add(&format!("xa:chains-of-length={k}"), *n);
+        }
+    }
+    obs.add("xa:noexpand-generated", st.noexpand);
+    obs.add("xa:macros-with-parameters-generated", st.macros_with_params);
+    obs.add("xa:the-generated", st.the);
+    obs.add("xa:conditionals-generated", st.conditionals);
+    if st.truncated {
+        obs.count("xa:truncated-streams");
+    }
+}
+
+const XA_ENUM_CASES: u64 = 3 * 2 * 2 * 512;
+const MIXED_PREAMBLE: &str = "\\count1=17\\relax \\count2=-5\\relax \\toks0={T\\a }%\n";
+
+// ------------------------------------------------------------------------------------------------
+// calibration tables (transcribed from the repository's unit tests)
+// ------------------------------------------------------------------------------------------------
+
+/// crates/texlang-stdlib/src/expansion.rs, `expandafter_test!` table (PREFIX ... POSTFIX) and the
+/// `\noexpand` cases. `\xa` is `\expandafter` there.
+const XA_PREFIX: &str = r"\def\mk#1#2{\def#1##1\notes##2\end{##1\notes##2#2\end}}\mk\a a\mk\b b\mk\c c\mk\d d\def\notes#1\end{#1}";
+const XA_POSTFIX: &str = r"\notes\end";
+const XA_TABLE: &[(&str, &str)] = &[
+    (r"\let\other=\xa \other\noexpand\xa\xa\xa\a\b", r"\noexpand\xa ba"),
+    (r"\xa\a\b", "ba"),
+    (r"\xa\xa\xa\a\xa\b\c", "cba"),
+    (r"\xa\xa\xa\xa\xa\xa\xa\a\xa\xa\xa\b\xa\c\d", "dcba"),
+    (r"\a\b\c\d", "abcd"),
+    (r"\a\b\xa\c\d", "abdc"),
+    (r"\a\xa\b\c\d", "acbd"),
+    (r"\a\xa\xa\xa\b\c\d", "acdb"),
+    (r"\a\xa\b\xa\c\d", "adbc"),
+    (r"\a\xa\xa\xa\b\xa\c\d", "adcb"),
+    (r"\xa\a\b\c\d", "bacd"),
+    (r"\xa\a\b\xa\c\d", "badc"),
+    (r"\xa\xa\xa\a\b\c\d", "bcad"),
+    (r"\xa\xa\xa\xa\xa\xa\xa\a\b\c\d", "bcda"),
+    (r"\xa\xa\xa\a\b\xa\c\d", "bdac"),
+    (r"\xa\xa\xa\xa\xa\xa\xa\a\b\xa\c\d", "bdca"),
+    (r"\xa\a\xa\b\c\d", "cabd"),
+    (r"\xa\a\xa\xa\xa\b\c\d", "cadb"),
+    (r"\xa\xa\xa\a\xa\b\c\d", "cbad"),
+    (r"\xa\xa\xa\xa\xa\xa\xa\a\xa\xa\xa\b\c\d", "cdba"),
+    (r"\xa\xa\xa\a\xa\xa\xa\b\c\d", "cdab"),
+    (r"\xa\a\xa\b\xa\c\d", "dabc"),
+    (r"\xa\a\xa\xa\xa\b\xa\c\d", "dacb"),
+    (r"\xa\xa\xa\a\xa\b\xa\c\d", "dbac"),
+    (r"\xa\xa\xa\xa\xa\xa\xa\a\xa\b\xa\c\d", "dbca"),
+    (r"\xa\xa\xa\a\xa\xa\xa\b\xa\c\d", "dcab"),
+    (r"\xa\xa\xa\xa\xa\xa\xa\a\xa\xa\xa\b\xa\c\d", "dcba"),
+    (r"\xa\xa\xa\a\xa\xa\b\c\d", "bdac"),
+];
+/// the plain cases of the same file (no PREFIX/POSTFIX)
+const NOEXPAND_TABLE: &[(&str, &str)] = &[
+    (r"\def\a{Hello}\noexpand\a", r"\noexpand\a"),
+    (r"\def\a#1\b{Hello '#1'}\def\b{World}\a\b", "Hello ''"),
+    (r"\def\a#1\b{Hello '#1'}\def\b{World}\a\b\b", "Hello ''World"),
+    (r"\def\a#1\b{Hello '#1'}\def\b{World}\xa\a\b\b", "Hello 'World'"),
+    (r"\def\a#1\b{Hello '#1'}\def\b{World}\xa\a\noexpand\b\b", "Hello ''World"),
+    (r"\def\A{\B}\def\B{Hello}\xa\noexpand\A", r"\noexpand\B"),
+];
+
+fn calibrate_expander(obs: &mut Obs) {
+    let run = |src: &str| -> Result<Vec<Tok>, String> {
+        let mut m = Expander::primitives();
+        m.insert("xa".into(), Meaning::ExpandAfter);
+        let mut e = Expander::new(m, NoexpandRule::Tex);
+        e.push_input(&lex_line(src));
+        e.run().map_err(|e| format!("{e:?}"))?;
+        Ok(vmodels::expand::delivered_tokens(&e.delivered))
+    };
+    let mut check = |lhs: String, rhs: String| {
+        // the repository's expansion_equality_tests expand both sides and compare the tokens
+        match (run(&lhs), run(&rhs)) {
+            (Ok(a), Ok(b)) if a == b => obs.count("calibration:expander-cases-agreeing"),
+            (a, b) => obs.inconclusive(format!(
+                "calibration: reference expander disagrees with the repo's unit test `{lhs}`: {a:?} vs {b:?}"
+            )),
+        }
+    };
+    for (l, r) in XA_TABLE {
+        check(format!("{XA_PREFIX}{l}{XA_POSTFIX}"), format!("{XA_PREFIX}{r}{XA_POSTFIX}"));
+    }
+    for (l, r) in NOEXPAND_TABLE {
+        check(l.to_string(), r.to_string());
+    }
+}
+
+/// crates/texlang-stdlib/src/conditional.rs `expansion_equality_tests`: (tree, source, output).
+fn calibrate_conditionals(obs: &mut Obs) {
+    let m = |s: &str| vec![Item::Mark(s.to_string())];
+    let t = |k: Kind, opener: &str, b: Vec<Vec<Item>>, e: Option<Vec<Item>>| cond::plain(k, opener.to_string(), b, e);
+    let num = |a: i32, o: Ordering, b: i32, rel: char| {
+        t(Kind::Num(a, o, b), &format!("\\ifnum {a}{rel}{b}"), vec![m("a")], Some(m("b")))
+    };
+    let cases: Vec<(Vec<Item>, &str, &str)> = vec![
+        (vec![t(Kind::True, "\\iftrue ", vec![m("a")], Some(m("b"))), Item::Mark("c".into())], r"\iftrue a\else b\fi c", "ac"),
+        (vec![t(Kind::True, "\\iftrue ", vec![m("a")], None), Item::Mark("c".into())], r"\iftrue a\fi c", "ac"),
+        (
+            vec![
+                t(
+                    Kind::True,
+                    "\\iftrue ",
+                    vec![m("a")],
+                    Some(vec![
+                        Item::Mark("b".into()),
+                        t(Kind::True, "\\iftrue ", vec![vec![]], Some(m("c"))),
+                        Item::Mark("d".into()),
+                    ]),
+                ),
+                Item::Mark("e".into()),
+            ],
+            r"\iftrue a\else b\iftrue \else c\fi d\fi e",
+            "ae",
+        ),
+        (vec![t(Kind::False, "\\iffalse ", vec![m("a")], Some(m("b"))), Item::Mark("c".into())], r"\iffalse a\else b\fi c", "bc"),
+        (vec![t(Kind::False, "\\iffalse ", vec![m("a")], None), Item::Mark("c".into())], r"\iffalse a\fi c", "c"),
+        (
+            vec![
+                t(
+                    Kind::False,
+                    "\\iffalse ",
+                    vec![vec![t(Kind::True, "\\iftrue ", vec![m("a")], Some(m("b"))), Item::Mark("c".into())]],
+                    Some(m("d")),
+                ),
+                Item::Mark("e".into()),
+            ],
+            r"\iffalse \iftrue a\else b\fi c\else d\fi e",
+            "de",
+        ),
+        (
+            vec![
+                t(
+                    Kind::False,
+                    "\\iffalse ",
+                    vec![m("a")],
+                    Some(vec![
+                        Item::Mark("b".into()),
+                        t(Kind::True, "\\iftrue ", vec![m("c")], Some(m("d"))),
+                        Item::Mark("e".into()),
+                    ]),
+                ),
+                Item::Mark("f".into()),
+            ],
+            r"\iffalse a\else b\iftrue c\else d\fi e\fi f",
+            "bcef",
+        ),
+        (
+            vec![
+                t(
+                    Kind::True,
+                    "\\iftrue ",
+                    vec![vec![
+                        Item::Mark("a".into()),
+                        t(Kind::False, "\\iffalse ", vec![m("b")], Some(m("c"))),
+                        Item::Mark("d".into()),
+                    ]],
+                    Some(m("e")),
+                ),
+                Item::Mark("f".into()),
+            ],
+            r"\iftrue a\iffalse b\else c\fi d\else e\fi f",
+            "acdf",
+        ),
+        (vec![num(4, Ordering::Less, 5, '<'), Item::Mark("c".into())], r"\ifnum 4<5a\else b\fi c", "ac"),
+        (vec![num(5, Ordering::Less, 4, '<'), Item::Mark("c".into())], r"\ifnum 5<4a\else b\fi c", "bc"),
+        (vec![num(4, Ordering::Equal, 4, '='), Item::Mark("c".into())], r"\ifnum 4=4a\else b\fi c", "ac"),
+        (vec![num(5, Ordering::Equal, 4, '='), Item::Mark("c".into())], r"\ifnum 5=4a\else b\fi c", "bc"),
+        (vec![num(5, Ordering::Greater, 4, '>'), Item::Mark("c".into())], r"\ifnum 5>4a\else b\fi c", "ac"),
+        (vec![num(4, Ordering::Greater, 5, '>'), Item::Mark("c".into())], r"\ifnum 4>5a\else b\fi c", "bc"),
+        (vec![t(Kind::Odd(3), "\\ifodd 3", vec![m("a")], Some(m("b"))), Item::Mark("c".into())], r"\ifodd 3a\else b\fi c", "ac"),
+        (vec![t(Kind::Odd(4), "\\ifodd 4", vec![m("a")], Some(m("b"))), Item::Mark("c".into())], r"\ifodd 4a\else b\fi c", "bc"),
+        (vec![t(Kind::Case(0), "\\ifcase 0 ", vec![m("a")], Some(m("b"))), Item::Mark("c".into())], r"\ifcase 0 a\else b\fi c", "ac"),
+        (vec![t(Kind::Case(0), "\\ifcase 0 ", vec![m("a"), m("b")], Some(m("c"))), Item::Mark("d".into())], r"\ifcase 0 a\or b\else c\fi d", "ad"),
+        (vec![t(Kind::Case(1), "\\ifcase 1 ", vec![m("a"), m("b")], Some(m("c"))), Item::Mark("d".into())], r"\ifcase 1 a\or b\else c\fi d", "bd"),
+        (vec![t(Kind::Case(1), "\\ifcase 1 ", vec![m("a"), m("b"), m("c")], Some(m("d"))), Item::Mark("e".into())], r"\ifcase 1 a\or b\or c\else d\fi e", "be"),
+        (vec![t(Kind::Case(1), "\\ifcase 1 ", vec![m("a")], Some(m("b"))), Item::Mark("c".into())], r"\ifcase 1 a\else b\fi c", "bc"),
+        (vec![t(Kind::Case(2), "\\ifcase 2 ", vec![m("a"), m("b")], Some(m("c"))), Item::Mark("d".into())], r"\ifcase 2 a\or b\else c\fi d", "cd"),
+        (vec![t(Kind::Case(3), "\\ifcase 3 ", vec![m("a"), m("b"), m("c")], None), Item::Mark("d".into())], r"\ifcase 3 a\or b\or c\fi d", "d"),
+        (
+            vec![
+                t(
+                    Kind::Case(1),
+                    "\\ifcase 1 ",
+                    vec![
+                        m("a"),
+                        vec![
+                            Item::Mark("b".into()),
+                            t(Kind::Case(1), "\\ifcase 1 ", vec![m("c"), m("d"), m("e")], Some(m("f"))),
+                            Item::Mark("g".into()),
+                        ],
+                        m("h"),
+                    ],
+                    None,
+                ),
+                Item::Mark("i".into()),
+            ],
+            r"\ifcase 1 a\or b\ifcase 1 c\or d\or e\else f\fi g\or h\fi i",
+            "bdgi",
+        ),
+    ];
+    let strip = |s: &str| s.chars().filter(|c| *c != ' ').collect::<String>();
+    for (items, src, want) in cases {
+        let mut r = String::new();
+        cond::render(&items, &mut r);
+        let mut out = String::new();
+        let ok = cond::eval(&items, OddRule::Tex, &mut out);
+        if ok && strip(&r) == strip(src) && out == want {
+            obs.count("calibration:conditional-cases-agreeing");
+        } else {
+            obs.inconclusive(format!(
+                "calibration: conditional evaluator disagrees with the repo's unit test `{src}`: rendered `{r}`, evaluated `{out}`, listed `{want}`"
+            ));
+        }
+    }
+}
 
 impl Monitor for M {
     fn id(&self) -> &'static str {
         "C07"
     }
+
     fn rule(&self) -> String {
-        "not built yet".into()
+        "cond-*: a case is one program (several conditional trees, depth 0..6, over \\iftrue/\\iffalse/\\ifnum/\\ifodd/\\ifcase \
+         spelled with primitives, \\let-aliases or redefinable names; every branch carries unique markers; unselected branches \
+         hold unbalanced braces, nested conditionals, aliases, \\def-ined look-alikes, undefined names) followed by a lone \\fi; \
+         non-trivial = contains at least one conditional, distinct by source text. cond-enum enumerates every \\ifodd n (44 \
+         boundary values x 4 spellings x primitive/alias), \\ifnum a R b (13x13 boundary values x 3 relations x 2 spellings), \
+         \\ifcase n (11 values x 1..5 cases x with/without \\else). xa-*: a case is one macro set run in two VMs (simple / optimized \
+         \\expandafter) on the same streams: atoms (macros with 0-2 undelimited or one delimited parameter, characters, groups, \
+         \\noexpand, in xa-mixed also \\the and conditionals), each preceded by a chain of 0..7 \\expandafter tokens (primitive name, \
+         \\let alias, or mixed); each stream is one evaluation, distinct by (preamble, stream). xa-enum enumerates \
+         \\xa^k1\\a\\xa^k2\\b\\xa^k3\\c\\xa^k4\\d for k1..k3 in 0..7, k4 in 0..1, 3 macro sets, 2 alias modes."
+            .into()
     }
+
     fn assumptions(&self) -> Vec<String> {
-        vec![]
+        vec![
+            "Conditional oracle = direct evaluation of the generated tree (TeX §498-§510); calibrated against the expansion_equality_tests of conditional.rs.".into(),
+            "Numbers are always terminated (\\relax, a space, or an internal register), signs/hex/octal forms are plain TeX §440-§444; -2^31 is not generated (not writable in TeX).".into(),
+            "\\or occurs only directly inside \\ifcase (elsewhere TeX reports 'Extra \\or'); redefinitions of the redefinable names happen only at top level between trees.".into(),
+            "expandafter oracle 1 = differential run of the two real implementations (output, error title, Event::Macro sequence); identical panics in both (e.g. the.rs todo!) are outside this property and skipped.".into(),
+            "expandafter oracle 2 (macro-only streams) = vmodels::expand, a transcription of TeX §366-§369/§358/§380, calibrated against the expandafter/noexpand tables of expansion.rs; streams that run away, end inside a command or deliver an unmatched } are out of its domain and skipped.".into(),
+        ]
     }
-    fn phases(&self, _tier: Tier) -> Vec<Phase> {
-        vec![]
+
+    fn phases(&self, tier: Tier) -> Vec<Phase> {
+        vec![
+            Phase::new("cond-enum", ENUM_TOTAL.div_ceil(ENUM_CHUNK)).batch(4).exhaustive(
+                "every \\ifodd n (44 boundary values, decimal/hex/octal/register, primitive and \\let alias), every \\ifnum a R b over 13x13 boundary values x {<,=,>} x {literal, register}, every \\ifcase n for 11 values x 1..5 cases x with/without \\else",
+            ),
+            Phase::new("cond-tree", tier.pick(60_000, 2_500_000)).batch(64),
+            Phase::new("xa-enum", XA_ENUM_CASES).batch(32).exhaustive(
+                "\\xa^k1\\a\\xa^k2\\b\\xa^k3\\c\\xa^k4\\d for all k1,k2,k3 in 0..7, k4 in 0..1 x 3 macro sets (parameterless, the repo's accumulator macros, mixed with parameters and \\noexpand) x {only \\expandafter, alternating with a \\let alias}",
+            ),
+            Phase::new("xa-macro", tier.pick(15_000, 600_000)).batch(64),
+            Phase::new("xa-mixed", tier.pick(10_000, 400_000)).batch(64),
+        ]
     }
-    fn run_case(&self, _phase: &str, _idx: u64, _rng: &mut Rng, _obs: &mut Obs) {}
+
+    fn floors(&self, tier: Tier) -> Vec<(&'static str, u64)> {
+        let s = tier.pick(1, 10);
+        vec![
+            ("cond:programs", 50_000 * s),
+            ("cond:lone-fi-raised-exactly-one-error", 40_000 * s),
+            ("cond:live:iftrue", 5_000 * s),
+            ("cond:live:iffalse", 5_000 * s),
+            ("cond:live:ifnum", 10_000 * s),
+            ("cond:live:ifodd", 10_000 * s),
+            ("cond:live:ifcase", 10_000 * s),
+            ("cond:dead-conditionals", 50_000 * s),
+            ("cond:programs-with-depth>=5", 2_000 * s),
+            ("cond:aliases-live", 10_000 * s),
+            ("cond:aliases-dead", 10_000 * s),
+            ("cond:redefinable-name-used-as-conditional", 1_000 * s),
+            ("cond:lookalikes-dead", 10_000 * s),
+            ("cond:dead-unbalanced-braces", 10_000 * s),
+            ("cond:skipped-by:false_case:with-nested-conditionals", 3_000 * s),
+            ("cond:skipped-by:if_case:with-nested-conditionals", 3_000 * s),
+            ("cond:skipped-by:else:with-nested-conditionals", 3_000 * s),
+            ("cond:skipped-by:or:with-nested-conditionals", 3_000 * s),
+            ("cond:ifodd-negative-odd-live", 2_000 * s),
+            ("cond:ifodd-negative-even-live", 1_000 * s),
+            ("cond:ifnum-boundary-live", 2_000 * s),
+            ("cond:ifcase-out-of-range-live", 2_000 * s),
+            ("cond:ifcase-negative-live", 500 * s),
+            ("cond:register-operands-live", 2_000 * s),
+            ("cond:redefinitions-between-trees", 5_000 * s),
+            ("xa:streams-compared", 100_000 * s),
+            ("xa:streams-compared:xa-enum", XA_ENUM_CASES),
+            ("xa:streams-compared-with-reference", 50_000 * s),
+            ("xa:macro-events-compared", 300_000 * s),
+            ("xa:chains-of-length=1", 10_000 * s),
+            ("xa:chains-of-length=3", 10_000 * s),
+            ("xa:chains-of-length=7", 5_000 * s),
+            ("xa:expandafter-alias-tokens-generated", 20_000 * s),
+            ("xa:noexpand-generated", 10_000 * s),
+            ("xa:macros-with-parameters-generated", 10_000 * s),
+            ("xa:the-generated", 2_000 * s),
+            ("xa:conditionals-generated", 2_000 * s),
+            ("xa:suppressed-token-reached-main-loop", 1_000 * s),
+            ("xa:streams-ending-in-identical-error", 200 * s),
+        ]
+    }
+
+    fn calibrate(&self, obs: &mut Obs) {
+        calibrate_expander(obs);
+        calibrate_conditionals(obs);
+    }
+
+    fn run_case(&self, phase: &str, idx: u64, rng: &mut Rng, obs: &mut Obs) {
+        match phase {
+            "cond-enum" => {
+                let mut items = vec![];
+                let lo = idx * ENUM_CHUNK;
+                for j in lo..(lo + ENUM_CHUNK).min(ENUM_TOTAL) {
+                    enum_cond_item(j, &mut items);
+                }
+                check_cond_program(&items, "cond-enum", obs);
+            }
+            "cond-tree" => {
+                let max_depth = [0u32, 1, 2, 3, 4, 5, 6][rng.weighted(&[1, 2, 3, 4, 4, 4, 6])];
+                let trees = 1 + rng.usize_below(3);
+                let mut g = Gen::new(rng, max_depth, 45);
+                let mut items = vec![];
+                for t in 0..trees {
+                    if t > 0 || g.rng.chance(1, 3) {
+                        if g.rng.chance(2, 3) {
+                            items.push(g.redefinition());
+                        }
+                    }
+                    items.extend(g.items(0, true, max_depth > 0));
+                }
+                check_cond_program(&items, "cond-tree", obs);
+            }
+            "xa-enum" => {
+                let mut i = idx;
+                let k = [(i % 8) as usize, ((i / 8) % 8) as usize, ((i / 64) % 8) as usize, ((i / 512) % 2) as usize];
+                i /= 1024;
+                let alias_mode = i % 2;
+                let variant = i / 2;
+                let set = xa::fixed_macro_set(variant);
+                let mut st = StreamStats::default();
+                let stream = xa::enum_stream(k, alias_mode, variant, &mut st);
+                stream_stats(&st, obs);
+                check_streams(&set, "", &[stream], true, "xa-enum", obs);
+            }
+            "xa-macro" | "xa-mixed" => {
+                let mixed = phase == "xa-mixed";
+                let set = xa::random_macro_set(rng);
+                let mut st = StreamStats::default();
+                let n = 6;
+                let mut streams = vec![];
+                for _ in 0..n {
+                    let flavor = if mixed { Flavor::Mixed } else { Flavor::MacroOnly };
+                    streams.push(xa::random_stream(rng, &set, flavor, &mut st));
+                    if st.truncated {
+                        break; // the VM is not reused after an end-of-input error
+                    }
+                }
+                stream_stats(&st, obs);
+                let extra = if mixed {
+                    if rng.chance(1, 5) {
+                        format!("{MIXED_PREAMBLE}\\scrollmode %\n")
+                    } else {
+                        MIXED_PREAMBLE.to_string()
+                    }
+                } else {
+                    String::new()
+                };
+                check_streams(&set, &extra, &streams, !mixed, phase_name(mixed), obs);
+            }
+            _ => obs.inconclusive(format!("unknown phase {phase}")),
+        }
+    }
+}
+
+fn phase_name(mixed: bool) -> &'static str {
+    if mixed {
+        "xa-mixed"
+    } else {
+        "xa-macro"
+    }
 }
